@@ -41,7 +41,7 @@ func VerifC17Expire() {
 	var deadline [vMaxRows]int64
 	var hasTTL [vMaxRows]bool
 	for i := 0; i < w.n; i++ {
-		switch vndChoice("ttl", 5) {
+		switch vndChoice("ttl", 7) {
 		case 0: // never had a TTL
 		case 1: // TTL set and cleared again
 			w.c.QueryAt(w.off[i], func(r Row) error {
@@ -103,6 +103,24 @@ func VerifC17Expire() {
 			})
 			w.a[i] = vCell{has: true, num: 7}
 			deadline[i], hasTTL[i] = until.UnixNano()+int64(e1)+int64(e2), true
+		case 5: // set and cleared again inside ONE transaction, on a row without a committed deadline
+			d := time.Duration(vndU64("d")&0x0fffffffffffffff + 1)
+			w.c.Query(func(txn *Txn) error {
+				return txn.QueryAt(w.off[i], func(r Row) error {
+					txn.TTL().Set(d)
+					txn.TTL().Set(0)
+					return nil
+				})
+			})
+			hasTTL[i] = true
+		case 6: // the same through Row.SetTTL, then extended by nothing
+			d := time.Duration(vndU64("d")&0x0fffffffffffffff + 1)
+			w.c.QueryAt(w.off[i], func(r Row) error {
+				r.SetTTL(d)
+				r.SetTTL(0)
+				return nil
+			})
+			hasTTL[i] = true
 		}
 	}
 	// the deadline is readable and is what the model says
